@@ -91,5 +91,24 @@ def run_pandas_join(c):
     return res
 
 
+def run_distinct_csv(c):
+    import csv
+    d = tempfile.mkdtemp(prefix='covmisc_', dir=os.environ.get('VERIF_SCRATCH'))
+    try:
+        inp, outp = os.path.join(d, 'in.csv'), os.path.join(d, 'out.csv')
+        with open(inp, 'w', encoding='utf-8', newline='') as f:
+            csv.writer(f, lineterminator='\n').writerows(c['rows'])
+        try:
+            rbql.query_csv(c['q'], inp, ',', 'quoted', outp, ',', 'quoted', 'utf-8', [], False)
+        except Exception as e:
+            return {'error': EN.canon_error(e), 'rows': None}
+        with open(outp, encoding='utf-8', newline='') as f:
+            return {'error': None, 'rows': [row for row in csv.reader(f)]}
+    finally:
+        shutil.rmtree(d, ignore_errors=True)
+
+
 def run_case(c):
+    if c['kind'] == 'distinct_csv':
+        return run_distinct_csv(c)
     return {'head': run_head, 'sqlite_head': run_sqlite_head, 'write_all': run_write_all, 'pandas_join': run_pandas_join}[c['kind']](c)
